@@ -224,6 +224,10 @@ def main(argv=None):
             total['nviol'] += f['count']
 
     rdir = os.path.join(ROOT, 'replays', prop_id)
+    if os.path.isdir(rdir):
+        for fn in os.listdir(rdir):
+            if fn.startswith(tier + '_'):
+                os.remove(os.path.join(rdir, fn))
     vlines = []
     harness_errors = list(total['harness_errors'])
     if viols:
